@@ -26,10 +26,27 @@ def run(ctx):
         if v["run"] in byname:
             v["scenario"] = byname[v["run"]].text()
     ctx.violations += bad
+    # interpreted request fields (cookies, credentials): reference operators of spec/ReqFields.tla, meta-properties checked by TLC, rows from real requests
+    rmc = vlib.tlc_or_die(ctx, "ReqFieldsMC", "ReqFieldsMC.cfg", workers=vlib.NCPU, timeout=1800, xmx="8g")
+    for inv in rmc.violated:
+        ctx.violations.append({"clause": "Model:" + inv, "what": "ReqFields reference violates its own meta-property: " + rmc.out[-1200:], "sites": []})
+    n = vlib.NCPU
+    cl, al = (6, 2) if q else (8, 3)
+    shards = [["cookie", cl, i, n] for i in range(n)] + [["auth", al, i, n] for i in range(n)] + [["rand", ctx.seed * 5 + i, 2000 if q else 40000] for i in range(4)]
+    ft, fd, fbad, _ = vlib.pattern_f(ctx, "san", "fn_fields", shards, "ReqFieldsRows", "ReqFieldsRows.cfg")
+    for v in fbad:
+        r = v.get("row") or {}
+        if isinstance(r, dict) and "hv" in r:
+            v["what"] = "%s: %s header value %r" % (v["clause"], r.get("t"), bytes(r["hv"]))
+    ctx.violations += fbad
     vac = None if total >= len(scns) else "judged %d rows for %d generated exchanges" % (total, len(scns))
+    if fd < 5 ** cl:
+        vac = "request-field rows: %d distinct < %d declared" % (fd, 5 ** cl)
     vlib.finish(ctx, "model_checking", {
         "states": gen.distinct, "transitions": max(gen.generated, 1), "traces_validated_against_impl": total,
-        "evaluations": total, "distinct_nontrivial": distinct,
+        "evaluations": total + ft, "distinct_nontrivial": distinct + fd, "request_field_rows": ft,
+        "request_fields": "every Cookie value of length <= %d over {a b = ; SP}; Authorization = 9 scheme spellings x every sequence of <= %d atoms from 19 (base64 groups with and without ':', padding, junk, "
+                          "username=, quotes, escapes); random values; cookies in order, credentials, auth type, HTP_AUTH_INVALID, stream failure judged against spec/ReqFields.tla" % (cl, al),
         "rule": "exchanges = HtpWire!Exchange(i, n) for %d consecutive indices x n in 1..%d pipelined messages (one production choice per component with co-prime strides: 6 methods, 7 targets incl. absolute "
                 "URI / userinfo / dot segments / percent escapes / odd queries, 2 versions, 0-2 extra header lines from a pool with folding, repetition, case and separator spellings, Host with/without port, "
                 "Cookie, Basic authorization, request framing none/C-L/chunked x2, 5 statuses, response framing C-L / chunked x2 / close / zero); delivered whole, with random cuts and one byte per call under sampled personalities; "
